@@ -495,3 +495,137 @@ pub fn policy_busy_lookups(rounds: u64) -> LiveResult {
     }
     LiveResult { scenario: "policy_busy_lookups", rounds, violations, detail }
 }
+
+/// The stalled-sweep scenario for `AsyncCache` (tokio multi-thread): as `sweep_refresh_race`, the holder
+/// being a thread with its own small runtime. Judged: refreshed keys survive (C03/C05), nothing expired is
+/// left (C05), resident = charged (C06), `len() <= max_cost` after refilling (C01).
+pub fn async_sweep_refresh_race(rounds: u64, prop: &str) -> LiveResult {
+    mark_client_pub();
+    let rt = tokio::runtime::Builder::new_multi_thread().worker_threads(4).enable_time().build().expect("tokio");
+    let mut violations = 0u64;
+    let mut detail = String::new();
+    for r in 0..rounds {
+        let prop = prop.to_string();
+        let msgs: Vec<String> = rt.block_on(async move {
+            let cb = RecCallback::default();
+            let max_cost = 1000i64;
+            let c = build_async(4096, max_cost, 4096, 64, Duration::from_millis(20), cb.clone());
+            let ns = std::time::SystemTime::now().duration_since(std::time::UNIX_EPOCH).unwrap().subsec_nanos() as u64;
+            if ns > 250_000_000 {
+                tokio::time::sleep(Duration::from_nanos(1_000_000_000 - ns + 10_000_000)).await;
+            }
+            let n = 600u64;
+            let held = 7u64;
+            for k in 0..n {
+                let _ = c.insert_with_ttl(mk_key(k, 0), k, 1, Duration::from_millis(300)).await;
+            }
+            let _ = c.wait().await;
+            let t0 = Instant::now();
+            let release = Arc::new(AtomicBool::new(false));
+            let holding = Arc::new(AtomicBool::new(false));
+            let holder = {
+                let c = c.clone();
+                let release = release.clone();
+                let holding = holding.clone();
+                std::thread::spawn(move || {
+                    let rt2 = tokio::runtime::Builder::new_current_thread().build().expect("rt2");
+                    rt2.block_on(async move {
+                        let g = c.get_mut(&mk_key(held, 0)).await;
+                        holding.store(true, Ordering::SeqCst);
+                        let t = Instant::now();
+                        while !release.load(Ordering::SeqCst) && t.elapsed() < Duration::from_secs(6) {
+                            std::thread::sleep(Duration::from_millis(1));
+                        }
+                        drop(g);
+                    });
+                })
+            };
+            while !holding.load(Ordering::SeqCst) && t0.elapsed() < Duration::from_secs(2) {
+                tokio::task::yield_now().await;
+            }
+            let m = c.metrics.clone();
+            let mut started = false;
+            while t0.elapsed() < Duration::from_millis(2600) {
+                if m.get_keys_evicted().unwrap_or(0) > 0 {
+                    started = true;
+                    break;
+                }
+                tokio::time::sleep(Duration::from_micros(200)).await;
+            }
+            let mut refreshed = Vec::new();
+            if started {
+                tokio::time::sleep(Duration::from_millis(3)).await;
+                for k in 0..n {
+                    if k % 256 == held % 256 {
+                        continue;
+                    }
+                    if c.insert_with_ttl(mk_key(k, 0), k + 10_000, 1, Duration::from_secs(3600)).await {
+                        refreshed.push(k);
+                    }
+                }
+            }
+            release.store(true, Ordering::SeqCst);
+            let _ = tokio::task::spawn_blocking(move || holder.join()).await;
+            let _ = c.wait().await;
+            tokio::time::sleep(Duration::from_millis(1300)).await;
+            let _ = c.wait().await;
+            let snap = stretto::verif::async_cache_snapshot(&c, |v| *v);
+            let resident: std::collections::BTreeSet<u64> = snap.store.items.iter().map(|i| i.0).collect();
+            let charged: std::collections::BTreeSet<u64> = snap.policy.charges.iter().map(|p| p.0).collect();
+            let called: std::collections::BTreeSet<u64> = cb
+                .0
+                .lock()
+                .unwrap()
+                .iter()
+                .map(|e| match e {
+                    CbEv::Exit(v) | CbEv::Evict(_, _, v, _) | CbEv::Reject(_, _, v, _) => *v,
+                })
+                .collect();
+            let lost: Vec<u64> = refreshed.iter().copied().filter(|k| !resident.contains(k) && !called.contains(&(k + 10_000))).collect();
+            let stale: Vec<u64> = resident.iter().copied().filter(|k| snap.store.items.iter().any(|i| i.0 == *k && i.2 < 10_000)).collect();
+            let mut msgs = Vec::new();
+            if matches!(prop.as_str(), "all" | "C03" | "C05" | "C19") && !lost.is_empty() {
+                msgs.push(format!(
+                    "AsyncCache round {}: {} keys were re-inserted with a one-hour TTL while the sweep of their old bucket was stalled; {} of them are neither resident nor were their new values handed to a callback (e.g. {:?}): the sweep removed entries that had not expired",
+                    r, refreshed.len(), lost.len(), &lost[..lost.len().min(5)]
+                ));
+            }
+            if matches!(prop.as_str(), "all" | "C05" | "C19") && !stale.is_empty() {
+                msgs.push(format!(
+                    "AsyncCache round {}: 1.3 s after the sweep of their bucket (a thread held the write guard of key {} meanwhile) {} entries whose 300 ms TTL ran out are still resident (e.g. {:?}): expired entries were not reclaimed",
+                    r, held, stale.len(), &stale[..stale.len().min(5)]
+                ));
+            }
+            if matches!(prop.as_str(), "all" | "C06" | "C19") && resident != charged {
+                let unch: Vec<u64> = resident.difference(&charged).copied().take(5).collect();
+                let noent: Vec<u64> = charged.difference(&resident).copied().take(5).collect();
+                msgs.push(format!(
+                    "AsyncCache round {}: at quiescence after a sweep racing TTL refreshes, resident keys and charged keys differ: resident without charge {:?}…, charged without entry {:?}… ({} resident, {} charged)",
+                    r, unch, noent, resident.len(), charged.len()
+                ));
+            }
+            if matches!(prop.as_str(), "all" | "C01") {
+                for k in 0..(2 * max_cost as u64) {
+                    let _ = c.insert(mk_key(100_000 + k, 0), k, 1).await;
+                    if k % 512 == 511 {
+                        let _ = c.wait().await;
+                    }
+                }
+                let _ = c.wait().await;
+                let len = c.len() as i64;
+                if len > max_cost {
+                    msgs.push(format!(
+                        "AsyncCache round {}: max_cost = {}, every entry costs 1; after a sweep racing TTL refreshes and {} further inserts the cache holds {} entries",
+                        r, max_cost, 2 * max_cost, len
+                    ));
+                }
+            }
+            let _ = c.close().await;
+            msgs
+        });
+        for msg in msgs {
+            note(&mut violations, &mut detail, msg);
+        }
+    }
+    LiveResult { scenario: "async_sweep_refresh_race", rounds, violations, detail }
+}
